@@ -96,3 +96,9 @@ impl Rng {
     }
 }
 
+
+impl crate::refimpl::codecs::Choice for Rng {
+    fn below(&mut self, n: u32) -> u32 {
+        Rng::below(self, n as u64) as u32
+    }
+}
